@@ -33,21 +33,21 @@ example : utf8.decodeWhole [0xE2, 0x82, 0xFF, 0x41] = [repl, repl, 'A'] := by de
 /-- (b) conservation along EVERY schedule from every initial configuration:
     captured ++ still in the pipe = everything written so far, on both streams -/
 theorem pipe_conservation (hi ht w p e : Bool) (o er : List Chunk) (ins : List InItem) (ho sf : Bool)
-    (n : Nat) (evs : List Ev) :
-    let s := run (S.init hi ht w p e o er ins ho sf n) evs
+    (n : Nat) (asy : Bool) (evs : List Ev) :
+    let s := run (S.init hi ht w p e o er ins ho sf n asy) evs
     s.capOut.flatten ++ s.out.buf.flatten = s.out.written.flatten ∧
     s.capErr.flatten ++ s.err.buf.flatten = s.err.written.flatten := by
-  have h := streamInv_run _ evs (streamInv_init hi ht w p e o er ins ho sf n)
+  have h := streamInv_run _ evs (streamInv_init hi ht w p e o er ins ho sf n asy)
   exact ⟨h.1.1, h.2.1⟩
 
 /-- (b) HEADLINE: once a reader has seen EOF it holds exactly the bytes ever written to its pipe,
     whatever the interleaving of writes, reads, exit, kill, timer and main-thread steps was -/
 theorem capture_complete (hi ht w p e : Bool) (o er : List Chunk) (ins : List InItem) (ho sf : Bool)
-    (n : Nat) (evs : List Ev) :
-    let s := run (S.init hi ht w p e o er ins ho sf n) evs
+    (n : Nat) (asy : Bool) (evs : List Ev) :
+    let s := run (S.init hi ht w p e o er ins ho sf n asy) evs
     (s.outPc = .done → s.capOut.flatten = s.out.written.flatten) ∧
     (s.errPc = .done → s.capErr.flatten = s.err.written.flatten) := by
-  have h := streamInv_run _ evs (streamInv_init hi ht w p e o er ins ho sf n)
+  have h := streamInv_run _ evs (streamInv_init hi ht w p e o er ins ho sf n asy)
   refine ⟨fun hd => ?_, fun hd => ?_⟩
   · have := h.1.1; rw [(h.1.2 hd).1] at this; simpa using this
   · have := h.2.1; rw [(h.2.2 hd).1] at this; simpa using this
@@ -55,20 +55,20 @@ theorem capture_complete (hi ht w p e : Bool) (o er : List Chunk) (ins : List In
 /-- the child's output script is never altered: written ++ still-to-write is the initial script,
     so "everything written" is a prefix of what the command intended to write, in order -/
 theorem written_is_prefix_of_script (hi ht w p e : Bool) (o er : List Chunk) (ins : List InItem) (ho sf : Bool)
-    (n : Nat) (evs : List Ev) :
-    let s := run (S.init hi ht w p e o er ins ho sf n) evs
+    (n : Nat) (asy : Bool) (evs : List Ev) :
+    let s := run (S.init hi ht w p e o er ins ho sf n asy) evs
     s.out.written ++ s.out.pending = o ∧ s.err.written ++ s.err.pending = er := by
-  have h := script_run (S.init hi ht w p e o er ins ho sf n) evs
+  have h := script_run (S.init hi ht w p e o er ins ho sf n asy) evs
   simpa [S.outScript, S.errScript, S.init] using h
 
 /-- composition of (a) and (b): the text captured for a stream whose reader reached EOF is the
     decoding of the complete byte stream the command wrote, for any decoder -/
 theorem captured_text_is_decoding_of_written (D : Decoder) (hi ht w p e : Bool) (o er : List Chunk)
-    (ins : List InItem) (ho sf : Bool) (n : Nat) (evs : List Ev) :
-    let s := run (S.init hi ht w p e o er ins ho sf n) evs
+    (ins : List InItem) (ho sf : Bool) (n : Nat) (asy : Bool) (evs : List Ev) :
+    let s := run (S.init hi ht w p e o er ins ho sf n asy) evs
     (s.outPc = .done → D.decodeIncremental s.capOut = D.decodeWhole s.out.written.flatten) ∧
     (s.errPc = .done → D.decodeIncremental s.capErr = D.decodeWhole s.err.written.flatten) := by
-  have h := capture_complete hi ht w p e o er ins ho sf n evs
+  have h := capture_complete hi ht w p e o er ins ho sf n asy evs
   refine ⟨fun hd => ?_, fun hd => ?_⟩
   · rw [chunked_decode_eq_whole, h.1 hd]
   · rw [chunked_decode_eq_whole, h.2 hd]
@@ -77,13 +77,13 @@ theorem captured_text_is_decoding_of_written (D : Decoder) (hi ht w p e : Bool) 
     what has been forwarded to our own stdout / stderr streams is exactly what has been captured,
     in the same order - and nothing at all for a hidden stream -/
 theorem mirror_eq_capture_or_empty (hi ht w p e : Bool) (o er : List Chunk) (ins : List InItem) (ho sf : Bool)
-    (n : Nat) (hideOut hideErr : Bool) (evs : List Ev) :
-    let s := run { S.init hi ht w p e o er ins ho sf n with hideOut := hideOut, hideErr := hideErr } evs
+    (n : Nat) (asy : Bool) (hideOut hideErr : Bool) (evs : List Ev) :
+    let s := run { S.init hi ht w p e o er ins ho sf n asy with hideOut := hideOut, hideErr := hideErr } evs
     s.mirOut = (if hideOut then [] else s.capOut) ∧ s.mirErr = (if hideErr then [] else s.capErr) := by
-  have h0 : MirInv { S.init hi ht w p e o er ins ho sf n with hideOut := hideOut, hideErr := hideErr } := by
+  have h0 : MirInv { S.init hi ht w p e o er ins ho sf n asy with hideOut := hideOut, hideErr := hideErr } := by
     cases hideOut <;> cases hideErr <;> simp [MirInv, S.init]
   have h := mirInv_run _ evs h0
-  have hh := hide_const_run { S.init hi ht w p e o er ins ho sf n with hideOut := hideOut, hideErr := hideErr } evs
+  have hh := hide_const_run { S.init hi ht w p e o er ins ho sf n asy with hideOut := hideOut, hideErr := hideErr } evs
   simp only [MirInv, hh.1, hh.2] at h
   exact h
 
